@@ -510,7 +510,7 @@ func init() {
 			if tier == "thorough" {
 				return 50 * time.Minute
 			}
-			return 5 * time.Minute
+			return 12 * time.Minute
 		},
 		Run: func(c *fw.Ctx) {
 			n := 3
